@@ -148,7 +148,7 @@ def run_case(ctx, idx, rng, tier):
         roundtrip_abstract(ctx, rB.seq, case, "built")
     roundtrip_legacy(ctx, rB.seq, case, "built")
     # ---- (2) parametrized template --------------------------------------------------------------
-    t = param.Templ(rng, p=0.4, custom_var=False)  # the schema has no variable form for custom samples
+    t = param.Templ(rng, p=0.4, custom_var=False, strided=True)  # the schema has no variable form for custom samples
     T = [t.op(o, regB["ids"]) for o in ops]
     if mapp:
         T = [o for o in T if o["op"] != "config_slm_mask"]
